@@ -459,7 +459,12 @@ def compare(case, o, m):
 # ---------------------------------------------------------------------------------------------
 
 def oracle(case, o):
-    if "harness_exception" in o or "raised" in o:
+    if "harness_exception" in o:
+        return []
+    if "raised" in o:
+        if case.get("valid"):
+            what = case["method"] if case["op"].startswith("pcps") else "evt"
+            return [(f"C19:{case['op']}:{what}:valid-input-refused", f"{case['op']} raised {o.get('msg')} on an input of the property's domain")]
         return []
     op = case["op"]
     bad = []
